@@ -73,7 +73,46 @@ def check_ans_sizes(ctx, F):
                 n_ext += 1
                 if e['callee'].endswith('WriteWords::extend_from_iter') and e['args'][0][0] == 'ref' and e['args'][0][1] == (1, ('f', 'bulk')):
                     src = e['args'][1]
-    if r is None or src is None or n_ext != 1:
+    if r is None and src is not None and n_ext == 1 and pw:
+        # num_words() with several paths (e.g. a case split on the size of `state`): every path must still agree with
+        # the number of chunks the exporter appends; a constant is only right where the path pins that number down
+        try:
+            im = effects.IterModel.__new__(effects.IterModel)
+            im.calls, im.preds, im.known_some = {}, [], set()
+            appended = effects.reroot(effects.strip_uid(im.length(src)), (1,), (1, 'deref'))
+            remaining = ('call', 'backends::BoundedReadWords::remaining', (('in', (1, 'deref', ('f', 'bulk'))),), None)
+            state = ('in', (1, 'deref', ('f', 'state')))
+            import props.C04 as c04
+            verdict = None
+            n_paths = 0
+            for rr in pw:
+                if rr.end != 'return':
+                    continue
+                n_paths += 1
+                got = sym.affine(iter_len_term(effects.strip_uid(rr.ret)))
+                if effects.affine_eq(got, sym.affine(sym.mk_bin('Add', remaining, appended))):
+                    continue
+                # what do the path predicates say about the number of chunks of `state`?
+                known = None
+                for t, v, _ in rr.preds:
+                    if t[0] == 'bin' and t[1] == 'Eq' and state in (t[2], t[3]) and pow2._is_zero(t[3] if t[2] == state else t[2]) and v:
+                        known = 0
+                    c = c04.canon_below(t, v)
+                    if c is not None and c[0] == state and c[2] and c[1].show() == '2^(<Word as BitArray>::BITS)' and known is None:
+                        if any(tt[0] == 'bin' and tt[1] == 'Eq' and state in (tt[2], tt[3]) and not vv for tt, vv, _ in rr.preds):
+                            known = 1
+                if known is not None and effects.affine_eq(got, sym.affine(sym.mk_bin('Add', remaining, ('int', known)))):
+                    continue
+                verdict = 'a path of num_words() returns %s although exporting appends %s words there (the path only knows %s about the state): wrong whenever State is wider than two Words' % (
+                    sym.show(rr.ret)[:80], sym.show(appended), 'that it has %d chunk(s)' % known if known is not None else 'nothing exact')
+                break
+            if verdict:
+                ctx.bad('R5', role, nw.defpath, verdict, key=key, loc=rules.loc(nw))
+            else:
+                ctx.ok('R5', role, nw.defpath, '%d paths, each returns remaining(bulk) + the number of chunks into_compressed appends on that path' % n_paths, key=key)
+        except Unresolved as u:
+            ctx.unresolved('R5', role, nw.defpath, str(u), key=key)
+    elif r is None or src is None or n_ext != 1:
         ctx.unresolved('R5', role, nw.defpath, 'shape outside idiom list (into_compressed must be one extend_from_iter on bulk; found %d impure calls)' % n_ext, key=key)
     else:
         try:
@@ -589,6 +628,8 @@ def run(ctx):
     check_bit_coder_sentinel(ctx, F)
     check_exhaustion_tolerance(ctx, F)
     check_valid_bits(ctx, F)
+    import props.C16 as c16
+    c16.check_queue_exhaustion(ctx, F)
     check_diagnostics(ctx, F)
     ctx.assume('remaining() of the backend is exact (C17 for the provided backends)')
     ctx.assume('ExactSizeIterator::len of bit_array_to_chunks_truncated equals the number of items it yields (std contract of Range/StepBy/Rev/Map)')
